@@ -30,6 +30,77 @@ CellsT == CellsQ \cup { Str(<<34, 34>>), Str(<<32, 97, 32>>), Str(<<34, 44, 34>>
                         Num(TRUE, <<9, 9, 9, 9, 9, 9, 9, 9, 9, 9, 9, 9, 9, 9, 9>>, 14), Num(FALSE, <<2, 5>>, 1),
                         Num(TRUE, <<1, 2, 5>>, -3), Num(FALSE, <<1, 7, 9, 7, 6, 9, 3, 1, 3, 4, 8, 6, 2, 3, 1>>, 308),
                         Num(TRUE, <<4, 9, 4, 0, 6, 5, 6, 4, 5, 8, 4, 1, 2, 4, 7>>, -324), Num(FALSE, <<1, 2, 3, 4, 5, 6, 7, 8, 9, 0, 1, 2, 3, 4, 5>>, -100) }
+
+\* ---- growth: the IniFile object ("api") -------------------------------------------------------------------------------
+\* files the object is opened on
+AT(text, ex, sw) == [text |-> text, exists |-> ex, sw |-> sw]
+T1 == <<91, 115, 93, 10, 97, 61, 49, 10, 35, 32, 99, 10, 91, 116, 93, 10, 98, 61, 50, 10>>    \* [s] a=1 # c [t] b=2
+T2 == <<97, 61, 49, 13, 10, 91, 115, 93, 13, 10, 98, 32, 61, 32, 50, 13, 10, 13, 10, 91, 115, 93, 13, 10, 97, 61, 51>>    \* a=1 [s] "b = 2" blank [s] a=3 - CR LF, a section given twice, no final newline
+T3 == <<239, 187, 191, 91, 115, 93, 10, 97, 61, 49, 10>>    \* byte order mark, [s] a=1
+T5 == <<91, 97, 114, 114, 93, 10, 115, 105, 122, 101, 61, 50, 10, 49, 92, 102, 61, 120, 10, 50, 92, 102, 61, 121, 10>>    \* [arr] size=2 1\f=x 2\f=y  (Qt style array)
+T7 == <<239, 187, 191, 97, 61, 49, 10, 91, 115, 93, 10, 98, 61, 50, 10>>    \* byte order mark, a=1 [s] b=2
+T8 == <<91, 115, 93, 10, 97, 61, 49, 10, 97, 61, 50, 10, 59, 32, 107, 61, 48, 10>>    \* [s] a=1 a=2 ; k=0  (a key given twice, a comment that looks like an entry)
+T9 == <<91, 116, 93, 10, 91, 115, 93, 10, 32, 32, 97, 32, 61, 32, 49, 10, 110, 61, 120, 61, 91, 121, 93, 59, 122, 35, 10>>    \* [t] (empty section)  "  a = 1" under [s], value with = [ ] ; #
+ApiTextsQ == { AT(T1, TRUE, TRUE), AT(T2, TRUE, TRUE), AT(T3, TRUE, TRUE), AT(<<>>, FALSE, TRUE), AT(<<>>, TRUE, TRUE), AT(T5, TRUE, TRUE), AT(T1, TRUE, FALSE) }
+ApiTextsT == ApiTextsQ \cup { AT(T7, TRUE, TRUE), AT(T8, TRUE, TRUE), AT(T9, TRUE, TRUE) }
+Nm(sec, key) == [sec |-> sec, key |-> key]
+MSet(sec, key, val) == [m |-> "set", sec |-> sec, key |-> key, val |-> val]
+MGet(sec, key) == [m |-> "get", sec |-> sec, key |-> key]
+sS == <<115>>
+sT == <<116>>
+sU == <<117>>
+sQ == <<113>>
+sArr == <<97, 114, 114>>
+kA == <<97>>
+kN == <<110>>
+kK == <<107>>
+kE == <<101>>
+kZ == <<122, 122>>
+ApiMutsQ == { MSet(sS, kA, <<57>>), MSet(sS, kN, <<32, 120, 32, 121, 32>>), MSet(sU, kK, <<55>>), MSet(sU, kE, <<>>), MSet(NoSec, kN, <<53>>),
+              MGet(sS, kZ), MGet(sS, kA), MGet(sQ, kZ),
+              [m |-> "cur", sec |-> sT], [m |-> "asize", sec |-> sArr], [m |-> "aget", field |-> <<102>>, idx |-> 1],
+              [m |-> "write"], [m |-> "writeTo"], [m |-> "writeBad"], [m |-> "reopen"] }
+\* quick: all calls to depth 2 on all files; to depth 3 (ApiDeepQ): the calls that make up the shortest histories of the findings and of persistence (set, read of a missing name,
+\* failing write, write, destroy + reopen, section()) on three files
+ApiTextsD == { AT(T1, TRUE, TRUE), AT(<<>>, TRUE, TRUE), AT(T3, TRUE, TRUE) }
+ApiMutsD == { MSet(sS, kN, <<32, 120, 32, 121, 32>>), MSet(sU, kK, <<55>>), MSet(NoSec, kN, <<53>>), MGet(sS, kZ),
+              [m |-> "cur", sec |-> sT], [m |-> "write"], [m |-> "writeBad"], [m |-> "reopen"] }
+ApiDeepQ(h, m) == h[1].text \in {t.text : t \in ApiTextsD} /\ h[1].exists /\ h[1].sw /\ m \in ApiMutsD /\ \A i \in 2..Len(h) : h[i].c \in ApiMutsD
+\* thorough adds: a value with = [ ] ; #, an existing key set to nothing, a plain read, a read of a missing plain name
+ApiMutsT == ApiMutsQ \cup { MSet(sT, <<98>>, <<112, 61, 91, 113, 93, 59, 114, 35>>), MSet(sS, kA, <<>>), MGet(NoSec, kA), MGet(NoSec, kZ) }
+ApiProbesQ == << Nm(sS, kA), Nm(sS, kN), Nm(sS, kZ), Nm(sU, kK), Nm(sU, kE), Nm(sQ, kZ), Nm(sT, <<98>>), Nm(NoSec, kA), Nm(NoSec, kN),
+                 Nm(sArr, <<115, 105, 122, 101>>) >>
+
+\* ---- growth: TabularDataFile with options ("csvw") and files of other tools ("csvr") ---------------------------------
+WOpt(sep, dec, q, flush, names) == [sep |-> sep, dec |-> dec, q |-> q, flush |-> flush, arff |-> FALSE, names |-> names, types |-> <<>>]
+nCD == << <<99>>, <<100>> >>
+\* , .   ; , flush 1   tab . quotes flush 2   one column with quotes   a name that is a number   ARFF (numeric, string)   ; . (not inferable)
+CsvOptsQ == { WOpt(44, 46, FALSE, 0, nCD), WOpt(59, 44, FALSE, 1, nCD), WOpt(9, 46, TRUE, 2, nCD), WOpt(44, 46, TRUE, 0, << <<99>> >>),
+              WOpt(44, 46, FALSE, 0, << <<49>>, <<100>> >>),
+              [sep |-> 44, dec |-> 46, q |-> FALSE, flush |-> 0, arff |-> TRUE, names |-> nCD, types |-> << <<>>, <<115>> >>],
+              WOpt(59, 46, FALSE, 0, nCD) }
+\* thorough adds: tab with decimal comma, three columns with ; , and flush 3, a negative number as name, ARFF with a nominal column and quotes asked for
+CsvOptsT == CsvOptsQ \cup { WOpt(9, 44, FALSE, 0, nCD), WOpt(59, 44, TRUE, 3, << <<99>>, <<100>>, <<101>> >>), WOpt(44, 46, FALSE, 1, << <<99>>, <<45, 50>> >>),
+                            [sep |-> 44, dec |-> 46, q |-> TRUE, flush |-> 1, arff |-> TRUE, names |-> nCD, types |-> << <<120, 124, 121>>, <<>> >>] }
+\* cells: a  ""  a string with every separator  x"y  -1.5  2  and the end of a short row;  thorough: blank, it's, 1e+20, 0.001
+CellsWQ == { Str(<<97>>), Str(<<112, 44, 113, 59, 114, 9, 115>>), Str(<<120, 34, 121>>), Num(TRUE, <<1, 5>>, 0), Num(FALSE, <<2>>, 0), EolCell }
+CellsW == { Str(<<97>>), Str(<<>>), Str(<<112, 44, 113, 59, 114, 9, 115>>), Str(<<120, 34, 121>>), Num(TRUE, <<1, 5>>, 0), Num(FALSE, <<2>>, 0), EolCell }
+CellsWT == CellsW \cup { Str(<<32>>), Str(<<105, 116, 39, 115>>), Num(FALSE, <<1>>, 20), Num(FALSE, <<1>>, -3) }
+\* lines of files written by other tools, per dialect
+CsvLinesQ == << { <<97, 44, 98>>, <<49, 44, 50>>, <<120, 44, 34, 112, 44, 113, 34>>, <<51, 44, 52, 44>>, <<53>>, <<>>, <<34, 113, 34, 34, 114, 34, 44, 55>>, <<45, 49, 46, 53, 44, 49, 101, 43, 50, 48>> },
+               { <<97, 59, 98>>, <<49, 44, 53, 59, 50>>, <<120, 59, 34, 112, 59, 113, 34>>, <<51, 59>>, <<>> },
+               { <<97, 9, 98>>, <<49, 46, 53, 9, 50>>, <<120, 32, 121, 9, 122>>, <<55>> },
+               { <<99, 44, 100, 44, 101>>, <<50, 48, 44, 50, 48, 44, 49, 46, 53>>, <<55, 44, 49, 102, 44, 50>>, <<48, 44, 97, 44, 45, 51>> } >>
+CsvLinesS == << { <<97, 44, 98>>, <<49, 44, 50>>, <<120, 44, 34, 112, 44, 113, 34>>, <<51, 44, 52, 44>>, <<53>>, <<34, 113, 34, 34, 114, 34, 44, 45, 49, 46, 53>> },
+               { <<97, 59, 98>>, <<49, 44, 53, 59, 50>>, <<120, 59, 34, 112, 59, 113, 34>>, <<>> },
+               { <<97, 9, 98>>, <<49, 46, 53, 9, 50>>, <<120, 32, 121, 9, 122>> },
+               { <<99, 44, 100, 44, 101>>, <<50, 48, 44, 50, 48, 44, 49, 46, 53>>, <<55, 44, 49, 102, 44, 50>> } >>
+CsvLinesT == << CsvLinesQ[1] \cup { <<98, 32, 99, 44, 32, 100>>, <<34, 49, 34, 44, 120>>, <<48, 46, 50, 53, 44, 45, 55>>, <<97, 44, 98, 44, 99>> },
+               CsvLinesQ[2] \cup { <<34, 49, 44, 53, 34, 59, 121>>, <<45, 50, 59, 48, 44, 53>> },
+               CsvLinesQ[3] \cup { <<34, 112, 9, 113, 34, 9, 49>>, <<9>> },
+               CsvLinesQ[4] >>
+CsvTypesS == { <<105, 104, 110>>, <<115, 104, 115>> }
+CsvTypesQ == { <<105, 104, 110>>, <<115, 104, 115>>, <<105>> }
 NoCells == {}
 NoLines == {}
 NoNames == {}
